@@ -21,6 +21,10 @@ type Config struct {
 	ListCounts   []int    // element counts tried for abstract slices of structs
 	MaxRuns      int      // cap on renderings per unit
 	FixedChoices map[string]int
+	// TypedefRefs additionally offers, for every container type, the shape the semantic resolver leaves for a reference
+	// to a typedef of a container: Category of the target, IsTypedef set, KeyType/ValueType nil (the element types are only
+	// reachable through the read/write context's sub-contexts).
+	TypedefRefs bool
 }
 
 // funcDecl is an interpretable repository function.
